@@ -21,7 +21,8 @@ CFG = {
             "SELFDESTRUCT at depth, 2^256 operands on every memory opcode), 10% random bytes, 8% random opcodes, 12% direct precompile calls "
             "(incl. modexp-shaped inputs with huge lengths); gas from a boundary lattice, uniform and log-uniform up to the block limit, plus 2^41..2^43 "
             "for self-recursion (the only way to reach depth 1025 under the 63/64 rule); five rule sets (homestead / homestead+HF1 gas / byzantium / "
-            "HF5-before-HF7 / spring). Non-trivial = at least 3 interpreter steps executed.",
+            "HF5-before-HF7 / spring); plus arity probes: every opcode byte x stack heights 0..8 (0..18 for DUP/SWAP) x 5 rule sets with zero/small/huge "
+            "operands (~8 200 runs). Non-trivial = at least 3 interpreter steps executed.",
     "tie": {"core/vm/jump_table.go (5 instruction sets), params gas tables and constants, precompile address sets, NewInterpreter/Rules selection":
                 "gen (values dumped from the compiled program; enumerations of gas/memory/execute functions the model must match exhaustively)",
             "Interpreter.Run, enforceRestrictions, gas_table.go (all gas functions, memoryGasCost), gas.go callGas, memory_table.go, "
